@@ -103,3 +103,19 @@ Definition decode (n : nat) (v : var -> Z) : ranking :=
 (** an assignment given as a finite table (what the harness reads back from the solver) *)
 Definition v_of (vals : list (var * Z)) : var -> Z := fun a =>
   match find (fun e => var_eqb (fst e) a) vals with Some e => snd e | None => 0 end.
+
+(** ** the CPLEX model (exactalgorithmcplex.py): same variables and the same binary / transitivity rows, no
+    component rows (the components are handled by recursion on sub-problems), and the "no tie" rows: when no
+    pair is cheaper tied than in the average of its two orders, every tie variable is fixed to 0 *)
+Definition can_no_ties (K : table) (n : nat) (thr : Z) : bool :=
+  forallb (fun ij => let '(b, a, t) := K (fst ij) (snd ij) in b + a - 2 * t <=? thr) (ordpairs (seq 0 n)).
+
+Definition notie_rows (n : nat) : list row :=
+  map (fun ij => mkRow [(1, T (fst ij) (snd ij))] true 0) (ordpairs (seq 0 n)).
+
+(** [notie] = the optimisation is requested (optimize = True, or the "optim1" variant) *)
+Definition cplex_rows (K : table) (n : nat) (notie : bool) (thr : Z) : list row :=
+  binary_rows n ++ trans_rows n ++ (if notie && can_no_ties K n thr then notie_rows n else []).
+
+Definition feasible_rows (n : nat) (rows : list row) (v : var -> Z) : bool :=
+  binary n v && forallb (sat v) rows.
